@@ -24,7 +24,58 @@ def family(prog, name, tier, taint_mode):
     raise KeyError(name)
 
 
+# ---- a NumPy number on the LEFT (np.float64(2) - x; what x.sum_values() and every NumPy reduction return) must reach x.__rsub__
+CONVERTIBLE = ("__array__", "__array_interface__", "__array_struct__")
+
+
+def numpy_takes_over(has: dict) -> str | None:
+    """NumPy's binary-operator dispatch for `number op obj` (probed against the installed NumPy 2.x, see DESIGN.md): the number's
+    operator converts obj itself - and returns a bare ndarray - when obj's TYPE offers an array conversion (__array__,
+    __array_interface__, __array_struct__, or the sequence protocol __len__ + __getitem__), unless the type opts out with
+    `__array_ufunc__ = None` or declares an `__array_priority__`. `has` maps attribute name -> 'method' | 'const:<expr>'."""
+    if str(has.get("__array_ufunc__", "")).replace(" ", "") == "const:None" or "__array_priority__" in has:
+        return None
+    if "__array_ufunc__" in has:
+        return "unmodelled"
+    by = [a for a in CONVERTIBLE if a in has]
+    if "__len__" in has and "__getitem__" in has:
+        by.append("__len__ + __getitem__ (sequence protocol)")
+    return ", ".join(by) if by else None
+
+
+def scalar_left_rule(prog, rep):
+    import ast
+    from ..core import AnalysisError, Finding
+    rid = rep.rule("C01.numpy-number-on-the-left", "np.float64(k) op x reaches x's reflected operator: the array classes offer NumPy no array "
+                                                   "conversion (or opt out of NumPy's dispatch)", floor=1)
+    base = prog.cls("FlodymArray")
+    names = CONVERTIBLE + ("__len__", "__getitem__", "__array_ufunc__", "__array_priority__")
+    for cls in prog.subclasses(base):
+        has = {}
+        for a in names:
+            r = prog.find_attr(cls, a)
+            if r:
+                has[a] = "method" if r[0] in ("method", "property") else "const:" + ast.unparse(r[1])
+        verdict = numpy_takes_over(has)
+        if verdict == "unmodelled":
+            raise AnalysisError(f"{cls.name} implements __array_ufunc__: NumPy hands every operation with a NumPy operand to it; not modelled")
+        rep.oblige(rid, verdict is None, where=cls.name, what=f"array-conversion / dispatch attributes: {sorted(has)}")
+        if verdict:
+            r = prog.find_attr(cls, verdict.split(",")[0].split(" ")[0])
+            fn = r[1] if r and r[0] in ("method", "property") else None
+            rep.add(Finding("C01", rid, fn.module if fn else cls.module, fn.qual if fn else cls.name, fn.node if fn else cls.node,
+                            f"{cls.name} offers NumPy an array conversion ({verdict}) without `__array_ufunc__ = None`: for a NumPy number on the left "
+                            f"(np.float64(2) - x, x.sum_values() / x) NumPy converts x itself and returns a bare ndarray without dimensions; the "
+                            f"reflected operator (__rsub__, __rtruediv__, ...) is never called and later operations pair axes by position",
+                            line=(fn.node if fn else cls.node).lineno, abstract_input={"expression": "np.float64(2) - x", "class": cls.name}))
+    # positive and negative controls of the decision table
+    if numpy_takes_over({"__array__": "method"}) is None or numpy_takes_over({"__len__": "method", "__getitem__": "method"}) is None \
+            or numpy_takes_over({"__array__": "method", "__array_ufunc__": "const:None"}) is not None or numpy_takes_over({"__getitem__": "method"}) is not None:
+        raise AnalysisError("C01 numpy-number-on-the-left rule no longer recognises its controls")
+
+
 def run(prog, rep):
+    scalar_left_rule(prog, rep)
     rep.rule("C01.operator-table", "result dims/axes/entry of x op y, x op k, k op x, unary ops equal the documented operator table")
     rep.rule("C01.pow-refuses-foreign-dims", "x**y with a dimension of y that x lacks raises")
     aspects = {("arith", "result"): "C01.operator-table", ("arith-scalar", "result"): "C01.operator-table",
